@@ -601,8 +601,10 @@ func (hs *clientHandshakeState) createNewSession() error {
 		peerCertificates: hs.peerCertificates,
 	}
 	dst := hs.c.conn.RemoteAddr().String()
+	// 两个缓存键各自保存一个独立的会话对象（各自持有主密钥副本）：
+	// 缓存淘汰任一条目时会清零该条目的主密钥，不得破坏另一个键下仍然可达的会话。
 	hs.c.config.SessionCache.Put(sessionKey, cs)
-	hs.c.config.SessionCache.Put(dst, cs)
+	hs.c.config.SessionCache.Put(dst, cs.clone())
 	return nil
 }
 
